@@ -20,7 +20,7 @@ EXPLANATION = (
     "(renaming, wrapping into a function; shared with C08); (R5) implicit component names are injective over (module, "
     "node, instantiation) (moving declarations into a module; shared with C09). The equality of documents over program "
     "pairs and rewrite sequences is not decidable by this family and is not claimed.")
-EXPLANATION += " Further clauses: (R6) JOIN-AGREE (shared C10.R5); (R7) VAR-UNIFORM - the eleven kind predicates treat an unresolved tag alike, so that applying a function in its own module or only in an importer cannot change the verdict. R1 also requires eval_binding to return the argument's annotations extended by those of the occurrence."
+EXPLANATION += " Further clauses: (R6) JOIN-AGREE (shared C10.R5); (R7) VAR-UNIFORM - the eleven kind predicates treat an unresolved tag alike, so that applying a function in its own module or only in an importer cannot change the verdict. R1 also requires eval_binding to return the argument's annotations extended by those of the occurrence. R3 also requires that productions use token positions for error spans only; (R8) ROOTS - evaluation is driven by the resources alone."
 TECHNIQUE = "static analysis: def-use transparency rules on MIR, who-may-call, predicate evaluation by abstract interpretation, shared scope/naming rules"
 
 TRIVIA_EXPECTED = {'Space', 'CommentLine', 'CommentBlock'}   # frozen: the three token kinds whose patterns are whitespace / comments
